@@ -11,7 +11,7 @@ from slices import blackbox
 
 def gen_graph(rng, family=None, n=None):
     """returns (targets, roots): targets = {name: {'kind', 'deps'}}; names t0..; edges go to lower indices (acyclic)"""
-    family = family or rng.choice(['random', 'random', 'random', 'chain', 'fan', 'diamond', 'aggchain', 'svc'])
+    family = family or rng.choice(['random', 'random', 'random', 'chain', 'fan', 'diamond', 'aggchain', 'svc', 'deepreq'])
     T = {}
     if family == 'chain':
         n = n or rng.randint(3, 12)
@@ -45,6 +45,19 @@ def gen_graph(rng, family=None, n=None):
             prev = 'g%d' % i
         T['top'] = {'kind': 'build', 'deps': [prev, 'x'] if rng.random() < 0.5 else [prev]}
         roots = [rng.choice(['top', prev])]
+    elif family == 'deepreq':
+        # leaves requested explicitly AND through a long chain of aggregates: the chain's request reaches a leaf long after the
+        # root's own request — after the leaf finished, or (second invocation) after it was skipped
+        k = rng.randint(1, 3)
+        for i in range(k):
+            T['x%d' % i] = {'kind': 'build', 'deps': []}
+        prev = ['x%d' % i for i in range(k)]
+        L = n or rng.randint(20, 60)
+        for i in range(L, 0, -1):
+            T['g%d' % i] = {'kind': 'aggregate', 'deps': prev}
+            prev = ['g%d' % i]
+        roots = ['x%d' % i for i in range(k)] + ['g1']
+        rng.shuffle(roots)
     elif family == 'svc':
         # a service that is both a dependency of a build and possibly requested (D1), services behind aggregates
         T['svc'] = {'kind': 'service', 'deps': []}
@@ -286,6 +299,11 @@ def oneshot(rng, T, roots, fail=(), gated=True, tag='os', cap=None, hang_s=None,
                         bad('C05', '%s did not complete in the first run (status %s) but the second run did not run its script again'
                             % (t, fail.get(t)))
                         bad('C02', '%s was skipped in the second run although it never ran to successful completion' % t)
+                if o2 != 'exited':
+                    bad('C04', 'the second invocation on the untouched tree did not terminate (first one exited with status %s); '
+                               'scripts started in it: %s' % (run.exit_code, sorted(started2)))
+                elif not failed and run2.exit_code != 0:
+                    bad('C04', 'second invocation on the untouched tree: every build had succeeded, exit status %s' % run2.exit_code)
                 second = {'outcome': o2, 'exit_code': run2.exit_code, 'trace': tr2}
             finally:
                 run2.kill()
@@ -410,6 +428,14 @@ def rendezvous(rng, k, tag='rv', with_noise=True):
     rng.shuffle(roots)
     d = vf.scratch_dir(tag)
     spec = {t: {'kind': s['kind'], 'deps': s['deps'], 'gated': s['kind'] == 'build'} for t, s in T.items()}
+    # most builds declare an input of their own (the incremental layer computes and records their state around the script:
+    # nothing in it may make independent builds take turns); a few declare none
+    for t, s in T.items():
+        if s['kind'] == 'build' and rng.random() < 0.8:
+            os.makedirs(os.path.join(d, 'in', t), exist_ok=True)
+            with open(os.path.join(d, 'in', t, 'src.txt'), 'w') as f:
+                f.write('input of %s\n' % t)
+            spec[t]['input'] = ['paths: [in/%s]' % t]
     proj = blackbox.Project(d, spec)
     run = blackbox.Run(proj, roots)
     V = {}
